@@ -24,9 +24,7 @@ pub fn gen(seed: u64, tier: Tier) -> ScenarioSpec {
     spec.sink = gen::gen_sink(&mut rng, false);
     spec.opts = OptsSpec { skip_frames: true, compute_hash: rng.chance(1, 2) };
     spec.compression = *rng.pick(&[Compression::None, Compression::Lz4, Compression::Zstd]);
-    if rng.chance(1, 8) {
-        spec.knobs.insert("prelude".into(), *rng.pick(&[1i64, 3]));
-    }
+    spec.knobs.insert("prelude".into(), gen_prelude(&mut rng, &[1, 3, 4, 5], 4));
     spec
 }
 
